@@ -53,3 +53,8 @@ claim("C12", "Real Dispatcher.generate_instructions executed symbolically over e
 claim("C18", "Real perform_vehicle_state_updates with three modelled vehicles in symbolic roles on one plug type (symbolic enqueue times, plugs, ghosts): FIFO among modelled queue members and exact counters, all paths.", _NOTE, "4/C18")
 claim("C20", "Real time_in_range, the real schedule closure with symbolic shift bounds, real perform_driver_state_updates with symbolic shifts/availability, and the real Dispatcher with symbolic driver kind: "
       "availability <=> in shift at the step's start time (any epoch second, wrap-around, empty shift), one event per flip, no pairing of off-shift drivers.", _NOTE + " HH:MM:SS parsing is outside the claim.", "4/C20")
+
+claim("C13", "Real OSMRoadNetwork/route on bounded in-memory graphs with symbolic edge lengths and positions at link ends and interiors: connectivity/end-point oracle on every path; "
+      "haversine routes and a finite snapping set.", _NOTE + " Snapping has no symbolic content (finite enumeration).", "4/C13")
+claim("C14", "Real OSMRoadNetwork.__init__ + route (networkx A*) with symbolic edge lengths and finite speed profiles: the returned inner route is no slower than any simple path, for every length assignment "
+      "within the bounds; searches exhausted.", _NOTE + " Bounded graphs (4 junctions), finite speed sets; Denver graph outside.", "4/C14")
